@@ -48,7 +48,7 @@ USES = {
     "C28": ["C10"],
     "C01": ["C02", "C03", "C10", "C11", "C12"], "C02": ["C09", "C03", "C01", "C10", "C11", "C12"], "C03": ["C10", "C11", "C12"],
     "C04": ["C05", "C13"], "C05": ["C13"], "C06": ["C05", "C13"], "C07": ["C02", "C03", "C01", "C05", "C13"], "C08": ["C03", "C10", "C13"],
-    "C16": ["C26", "C14"], "C14": ["C16"], "C25": ["C26"], "C17": ["C01"],
+    "C16": ["C26", "C14"], "C14": ["C16"], "C25": ["C26", "C01"], "C17": ["C01"],
 }
 idx = {}
 for fn in sorted(os.listdir(PROPS)):
